@@ -2,4 +2,5 @@ CONSTANTS Parts = {"content"}  ContentLen = 4  Slices = 1  Slice = 0
 INIT Init
 NEXT Next
 INVARIANTS Inv Laws Emit
+PROPERTIES FirstWins
 CHECK_DEADLOCK FALSE
